@@ -568,8 +568,8 @@ def eigh_contract(case, out, tol=1e-12):
 
 def concl_treigen(case, out):
     """conclusion of C06_treigen_global_minimiser on the implementation, per branch: interior |p| < Delta; hard |p| = Delta (1e-10 relative,
-    measured 1e-15); secular | |p| - Delta | <= (1e-9 + 1e-12) Delta (the loop's exit test, measured <= 9.93e-10); every branch: model value
-    within 1e-6*scale of the independent reference optimum (the theorem's hard-case slack 4*eps*Delta^2, eps = 1e-12*mean|sig|, is far below that)"""
+    measured 1e-15); secular | |p| - Delta | <= (1e-9 + 1e-12) Delta (the loop's exit test, measured <= 9.93e-10); model value against the
+    independent reference optimum with the slack of the theorem's clause for the branch taken"""
     bad = []
     if out['p'] is None:
         return ['treigen.solve did not terminate (secular iteration %s)' % ('stalls at a fixed point of lam with |bError| > 1e-9' if out.get('stalled') else 'ran for 60 s')]
@@ -591,8 +591,12 @@ def concl_treigen(case, out):
     e = energy(case['A'], case['b'], p)
     a = onp.array(case['A'])
     scale = abs(ref) + onp.linalg.norm(case['b']) * delta + onp.linalg.norm(a, 2) * delta * delta
-    if e > ref + 1e-6 * scale:
-        bad.append('not a minimiser over the ball: model value %.9g, optimum %.9g' % (e, ref))
+    # slack mirroring the theorem's clauses (was 1e-6*scale for every branch; measured gap <= 5e-15*scale on 11000 cases):
+    # interior: exact optimum; hard: 4*eps*Delta^2 with eps = 1e-12*mean|sig|; secular: the radius may miss Delta by 1e-9 relative
+    eps = 1e-12 * float(onp.mean(onp.abs(onp.array(out['sig'])))) if 'sig' in out else 0.0
+    slack = {'interior': 1e-10 * scale, 'hard': 4 * eps * delta * delta + 1e-10 * scale, 'secular': 2e-9 * scale}.get(br, 1e-6 * scale)
+    if e > ref + slack:
+        bad.append('not a minimiser over the ball: model value %.17g, optimum %.17g (allowed slack %.3g)' % (e, ref, slack))
     return bad
 
 
